@@ -36,6 +36,8 @@ func newQEnv(c *core.Ctx, r *core.Rand, maxThings int, small bool) (*qEnv, error
 	defs := qx.Defs()
 	if childQEnv {
 		defs = append(defs, &schema.StoreDef{Type: qx.Things, Parent: qx.Things, ChildPath: []string{"kid"}, Fields: []schema.Field{{Name: "extra", Kind: schema.KStr}}})
+		// owners get a plain list of thing ids whose symbol is typed to that child store
+		defs[0].Fields = append(defs[0].Fields, schema.Field{Name: "kidlist", Kind: schema.KList, FK: qx.Things + "/kid"})
 	}
 	sc := schema.Build(defs)
 	path := c.TempFile("q")
@@ -215,6 +217,16 @@ func runC01(c *core.Ctx, idx int) {
 	st := env.sc.St(store)
 	g := &qx.Gen{R: r, W: env.w, Store: store}
 	all := env.w.Ids(store)
+	viaKidlist := viaChild && (idx/7)%2 == 1
+	if viaKidlist {
+		// the owners store, with sub-queries over the set typed to the child store
+		viaChild = false
+		store = qx.Owners
+		st = env.sc.St(store)
+		g = &qx.Gen{R: r, W: env.w, Store: store, KidSets: true}
+		all = env.w.Ids(store)
+		c.Count("cases_with_subqueries_over_a_set_typed_to_a_child_store", 1)
+	}
 	if viaChild {
 		st = env.sc.St(qx.Things + "/kid")
 		var kids []string
@@ -410,8 +422,10 @@ func newMemWorld(w *qx.World) *memWorld {
 			t.Types[p] = qxNodeTypes[typ]
 			t.Sets[p] = true
 		}
-		for _, set := range qx.SubSets(store) {
+		for _, set := range memSubSets(store) {
 			t.Linked[set] = m.tables[qx.TargetOf(store, set)]
+			t.Types[set] = ast.NodeTypeString
+			t.Sets[set] = true
 		}
 	}
 	return m
@@ -430,6 +444,14 @@ func (m *memWorld) row(store, id string, depth int) *memsym.Row {
 	}
 	m.cache[key] = r
 	return r
+}
+
+// memSubSets: the sets sub-queries can range over, incl. the owners' list that is typed to the child store of things.
+func memSubSets(store string) []string {
+	if store == qx.Owners {
+		return append(append([]string{}, qx.SubSets(store)...), "kidlist")
+	}
+	return qx.SubSets(store)
 }
 
 func (m *memWorld) build(store, id string, depth int) *memsym.Row {
@@ -451,13 +473,13 @@ func (m *memWorld) build(store, id string, depth int) *memsym.Row {
 		}
 	}
 	if depth > 0 {
-		for _, set := range qx.SubSets(store) {
+		for _, set := range memSubSets(store) {
 			ids, _ := src.V[set].([]string)
 			seen := map[string]bool{}
 			sorted := append([]string{}, ids...)
 			sort.Strings(sorted)
 			for _, lid := range sorted {
-				if seen[lid] || m.w.Rows[qx.TargetOf(store, set)][lid] == nil {
+				if seen[lid] || m.w.Rows[qx.TargetOf(store, set)][lid] == nil || (set == "kidlist" && !qx.HashKid(lid)) {
 					continue
 				}
 				seen[lid] = true
